@@ -5,6 +5,7 @@ CONSTANTS
   MaxWrites = 2
   Emit = FALSE
   Mut = "none"
+  Fb = FALSE
   Progs <- AllProgs
   defaultInitValue = 0
 INVARIANTS NoBad FinalIsLfp LocksQuiescent
